@@ -384,6 +384,28 @@ class SimConnection:
             raise OSError("connection is write-only")
         return current_kernel().ch_recv(self._ch, "recv_bytes")
 
+    def recv_bytes_into(self, buf, offset=0):
+        """As multiprocessing.connection.Connection.recv_bytes_into: the complete message is
+        read into `buf` at `offset`; BufferTooShort carries the message if it does not fit."""
+        if not self.readable:
+            raise OSError("connection is write-only")
+        import multiprocessing
+
+        payload = current_kernel().ch_recv(self._ch, "recv_bytes")
+        with memoryview(buf) as m:
+            itemsize = m.itemsize
+            bytesize = itemsize * len(m)
+            if offset < 0:
+                raise ValueError("negative offset")
+            elif offset > bytesize:
+                raise ValueError("offset too large")
+            size = len(payload)
+            if bytesize < offset + size:
+                raise multiprocessing.BufferTooShort(payload)
+            m = m.cast("B") if itemsize != 1 else m
+            m[offset : offset + size] = payload
+        return size
+
     def poll(self, timeout=0.0):
         return bool(self._ch.msgs)
 
@@ -577,6 +599,7 @@ class MultiprocessingShim:
     connection = _ConnectionShim
     Process = SimProcess
     Queue = SimQueue
+    from multiprocessing import AuthenticationError, BufferTooShort, ProcessError, TimeoutError  # noqa: F401
     active_children = staticmethod(sim_active_children)
 
     @staticmethod
